@@ -508,6 +508,8 @@ var directed = map[string][]string{
 		"return !(x/(ti(1, 4)/2) == 1 && q)",                    // division
 		"return !(s+(t+\"a\") == \"zzzzza\" && x*(y*2) == 8)",       // associative operators: fine
 		"return !(fx < fy || p)",                                 // floats: must not be offered
+		"return !!(p && tb(1, q))",                               // parent is a unary expression
+		"return fmt.Sprint(!(p && tb(1, q)), [2]int{1, 2}[x&1])",
 		"return !(cx < cy || p)",                                 // defined float type: must not be offered either
 		"return !(q && (hx32 >= hy32 || ay > ax))",
 		"return !(p && sumi(1, xsI...) == 6)",                    // variadic spread, ...int
@@ -533,9 +535,14 @@ var directed = map[string][]string{
 		"v := true\n\tif tb(1, p) && fx < fy {\n\t\tv = false\n\t}\n\treturn v",
 	},
 	"QF1002": {
+		"v := pairA{x, \"a\"}\n\tr := 0\n\tswitch {\n\tcase (pairA{1, \"a\"}) == v:\n\t\tr = 1\n\tcase (pairA{2, \"a\"}) == v:\n\t\tr = 2\n\t}\n\treturn r",
 		"r := 0\n\tswitch {\n\tcase x == 1 || x == 1:\n\t\tr = 1\n\tcase x == 3:\n\t\tr = 2\n\t}\n\treturn r", // duplicate constants
 	},
 	"QF1003": {
+		"n := 0\n\tfor i := 0; i < 3; i++ {\n\t\tif x == 1 {\n\t\t\tn += 1\n\t\t} else if x == 2 {\n\t\t\tn += 2\n\t\t} else {\n\t\t\tbreak\n\t\t}\n\t\tn += 10\n\t}\n\treturn n", // break in the final else, inside a loop
+		"n := 0\n\tfor i := 0; i < 3; i++ {\n\t\tif x == 1 {\n\t\t\tn += 1\n\t\t} else if x == 2 {\n\t\t\tn += 2\n\t\t} else {\n\t\t\tcontinue\n\t\t}\n\t\tn += 10\n\t}\n\treturn n",
+		"n := 0\n\tswitch {\n\tcase y > 0:\n\t\tif x == 1 {\n\t\t\tn += 1\n\t\t} else if x == 2 {\n\t\t\tn += 2\n\t\t} else {\n\t\t\tbreak\n\t\t}\n\t\tn += 10\n\t}\n\treturn n", // break inside a switch case
+		"v := pairA{x, \"a\"}\n\tr := 0\n\tif (pairA{1, \"a\"}) == v {\n\t\tr = 1\n\t} else if (pairA{2, \"a\"}) == v {\n\t\tr = 2\n\t}\n\treturn r", // composite literals differing only in elements
 		"r := 0\n\tif x == 1 {\n\t\tr = 1\n\t} else if x == 1 || x == 2 {\n\t\tr = 2\n\t}\n\treturn r", // duplicate constants
 	},
 	"S1033": {
@@ -548,11 +555,19 @@ var directed = map[string][]string{
 		"bs := []int{1, 2, 3, 4, 5, 6}\n\tfor i := 0; i < x; i++ {\n\t\tbs[i] = bs[y+i]\n\t}\n\treturn fmt.Sprint(bs)",
 	},
 	"QF1005": {
+		"return 1 / math.Pow(fx, 2)",   // parent binary expression with tighter / equal precedence
+		"return fy / math.Pow(fx, 3)",
+		"return -math.Pow(fx, 2) - math.Pow(fy, 2)",
+		"return fmt.Sprint(math.Pow(fx, 2) * fy, []float64{1, 2}[int(math.Pow(1, 2))-1])",
 		"return math.Pow(fx*1.1, 2)",   // x*y*x*y is not (x*y)*(x*y) in floating point
 		"return math.Pow(fy*0.7, 3)",
 		"return math.Pow(tf(1, fx), 2)", // side-effecting operand: must not be duplicated
 	},
+	"S1028": {
+		"return errors.New(fmt.Sprintf(\"%d %v\", xsA...)).Error()",
+	},
 	"QF1012": {
+		"buf := &bytes.Buffer{}\n\tbuf.WriteString(fmt.Sprintf(\"%d %v\", xsA...))\n\tbuf.Write([]byte(fmt.Sprint(xsA...)))\n\treturn buf.String()",
 		"mkw().Write([]byte(fmt.Sprintf(\"%d\", ti(1, x))))\n\treturn nil",
 		"ws := map[int]valw{1: {&sink}}\n\tws[1].Write([]byte(fmt.Sprint(ti(1, x))))\n\treturn nil",
 	},
